@@ -90,14 +90,72 @@ JRoot(r) ==
                                  /\ PieceLength(WholeRoot(v), r.out.piece)
                                  /\ r.out.piece.closed = IsClosedV(v, r.tolU, 2))
 
+
+\* ------------------------------------------------------------------ C05
+QVR(v) == [k \in 1..Len(v) |-> VScale(QR, v[k])]
+
+JResample(r) ==
+    LET o == r.out v == Built(r.pts, 0, r.fc, r.dim) closed == IsClosedV(v, 0, r.dim) IN
+    IF r.mode = "count" THEN
+        /\ Clause(i, "C05.resample.count.ok", o.ok \/ CountMayFail(v, r.n))
+        /\ o.ok => /\ Clause(i, "C05.resample.finite", o.finite)
+                   /\ Clause(i, "C05.resample.count.vertices", ResampleCountOK(v, r.n, o.verts))
+                   /\ Clause(i, "C05.resample.closedness", o.closed = o.src_closed)
+    ELSE IF r.mode = "spacing" THEN
+        \* a closed source may get its first sample repeated as closing vertex
+        IF ~o.ok THEN Clause(i, "C05.resample.spacing.ok", SpacingMayFail(v, r.n, FALSE) \/ (closed /\ SpacingMayFail(v, r.n, TRUE)))
+        ELSE /\ Clause(i, "C05.resample.finite", o.finite)
+             /\ Clause(i, "C05.resample.spacing.vertices",
+                       ResampleSpacingOK(v, r.n, o.verts, FALSE) \/ (closed /\ ResampleSpacingOK(v, r.n, o.verts, TRUE)))
+    ELSE
+        /\ Clause(i, "C05.resample.maxspacing.ok", o.ok \/ MaxSpacingMayFail(v, r.n))
+        /\ o.ok => /\ Clause(i, "C05.resample.finite", o.finite)
+                   /\ Clause(i, "C05.resample.maxspacing.vertices", ResampleMaxSpacingOK(v, r.n, o.verts))
+                   /\ Clause(i, "C05.resample.closedness", o.closed = o.src_closed)
+
+\* indices (1-based) in v of the vertices of w: ends forced, interior matched greedily; <<>> if w is not a subsequence
+RECURSIVE MatchFrom(_, _, _, _, _)
+MatchFrom(v, w, j, k, acc) ==
+    IF j > Len(w) - 1 THEN acc
+    ELSE IF k > Len(v) - 1 THEN <<>>
+    ELSE IF w[j] = v[k] THEN MatchFrom(v, w, j + 1, k + 1, Append(acc, k))
+    ELSE MatchFrom(v, w, j, k + 1, acc)
+MatchIdx(v, w) ==
+    IF Len(w) < 2 \/ Len(v) < 2 \/ w[1] # v[1] \/ w[Len(w)] # v[Len(v)] THEN <<>>
+    ELSE LET mid == MatchFrom(v, w, 2, 2, <<1>>) IN IF mid = <<>> THEN <<>> ELSE Append(mid, Len(v))
+
+Unq(w) == [k \in 1..Len(w) |-> <<w[k][1] \div QR, w[k][2] \div QR, w[k][3] \div QR>>]
+JSimplify(r) ==
+    LET o == r.out
+        exact == \A k \in 1..Len(o.src) : \A a \in 1..3 : o.src[k][a] % QR = 0
+        idx == MatchIdx(o.src, o.verts) IN
+    /\ Clause(i, "C05.simplify.finite", o.finite /\ exact)
+    /\ Clause(i, "C05.simplify.subsequence_with_ends", idx # <<>>)
+    /\ Clause(i, "C05.simplify.closedness", o.closed = o.src_closed)
+    /\ (idx # <<>> /\ exact) => Clause(i, "C05.simplify.within_tolerance", SimplifyOK(Unq(o.src), r.e4, idx))
+
+JFill(r) ==
+    LET o == r.out
+        RECURSIVE Greedy(_, _, _)
+        Greedy(j, k, acc) == IF j > Len(r.pts) THEN acc ELSE IF k > Len(o.verts) THEN <<>>
+                             ELSE IF o.verts[k] = VScale(QR, r.pts[j]) THEN Greedy(j + 1, k + 1, Append(acc, k))
+                             ELSE Greedy(j, k + 1, acc)
+        orig == Greedy(1, 1, <<>>) IN
+    /\ Clause(i, "C05.fill.finite", o.finite)
+    /\ Clause(i, "C05.fill.originals_kept_in_order", orig # <<>>)
+    /\ orig # <<>> => Clause(i, "C05.fill.gaps_and_inserts", FillGapsOK(r.pts, r.m2, o.verts, orig))
+
 Judge(r) ==
     /\ Sane(i, r)
     /\ Ran(r) =>
         CASE r.op = "stations" -> JStations(r)
+          [] r.op = "resample" -> JResample(r)
+          [] r.op = "simplify" -> JSimplify(r)
+          [] r.op = "fill_gaps" -> JFill(r)
           [] r.op = "reset"    -> TRUE
           [] OTHER             -> Clause(i, "unknown-op", FALSE)
 
-Stateless(r) == r.op \in {"stations"}
+Stateless(r) == r.op \in {"stations", "resample", "simplify", "fill_gaps"}
 
 Init == i = 1 /\ rv = <<>> /\ rc = FALSE /\ d = NoCurve /\ skip = FALSE
 Next ==
